@@ -183,14 +183,35 @@ def build_source(rng, lines, events, nops):
     ops = []
     body = []
     k = 0
+    # simulate the prescribed cursor so that most READs ask for a type the next item can be read as
+    flat, first_at = [], {}
+    pending = []
+    for e in events:
+        if e[0] == 'L':
+            pending.append(e[1])
+        else:
+            for l in pending:
+                first_at[l] = len(flat)
+            pending = []
+            flat.extend(e[1])
+    for l in pending:
+        first_at[l] = len(flat)
+    pos = 0
     for _ in range(nops):
         if rng.random() < 0.3:
             tgt = rng.choice(labs + [None]) if labs else None
             ops.append(('T', tgt))
             body.append('RESTORE' + (f' {tgt}' if tgt else ''))
+            pos = 0 if tgt is None else first_at.get(tgt, len(flat))
         else:
             k += 1
             ty = rng.choice(values.TYPES)
+            if pos < len(flat) and rng.random() < 0.85:
+                it = flat[pos]
+                ok = [t for t in values.TYPES if conv_expected(it, t)[0] == 'val']
+                if ok:
+                    ty = rng.choice(ok)
+            pos += 1
             var = f'r{k}{values.TYPE_CHAR[ty]}'
             ops.append(('R', ty, var))
             body.append(f'READ {var}')
@@ -284,6 +305,7 @@ def run(chk):
     nprog = chk.n(150, 3000)
     cfgs_all = real.CONFIGS
     reqs_g, exp_g, reqs_r, exp_r = [], [], [], []
+    reqs_l, exp_l = [], []
     deviations = []
     nontrivial = set()
     hits = {}
@@ -319,6 +341,15 @@ def run(chk):
             gtxt.append(enc_items(its))
         reqs_g.append('group ' + ' '.join(evtoks))
         exp_g.append(' '.join(gtxt))
+        for e in events:
+            if e[0] == 'L':
+                canon = e[1].lower() if not e[1].isdigit() else '_lineno_' + e[1]
+                try:
+                    ri = str(code.get_data_label_index(canon))
+                except ValueError:
+                    ri = 'none'
+                reqs_l.append('lidx ' + core.enc_str(canon) + ' ' + ' '.join(evtoks))
+                exp_l.append(ri)
         # run
         r = real.run_bytes(st[2])
         out = real.text_of(r.trace).split('\r\n')
@@ -360,6 +391,7 @@ def run(chk):
         if pi < 3:
             chk.samples.append({'program': src, 'outcome': list(r.outcome), 'printed': out[:6]})
     chk.corr('data-grouping', reqs_g, exp_g)
+    chk.corr('data-label-index', reqs_l, exp_l)
     # floats cross as tokens: the model returns the text handed to float(), the device the value
     got = chk.model.ask(reqs_r) if chk.model else []
     nb = 0
